@@ -227,11 +227,12 @@ def single_predictor(n_nodes, scale, max_stride, stride, sigma, max_hw, refineme
 def topdown_predictor(n_nodes, anchor, c_scale, i_scale, c_max_stride, i_max_stride, c_stride, i_stride, sigma, crop, max_hw, refinement, batch, skeleton, max_instances=None, peak_threshold=0.2):
     from sleap_nn.inference.predictors import TopDownPredictor
 
+    ch, cw = (crop, crop) if isinstance(crop, int) else (int(crop[0]), int(crop[1]))  # crop: side of a square crop or (height, width)
     ccfg = _cfg("centroid", {"confmaps": {"anchor_part": None, "sigma": sigma, "output_stride": c_stride}}, c_scale, c_max_stride, max_hw[0], max_hw[1], crop_hw=None)
-    icfg = _cfg("centered_instance", {"confmaps": {"part_names": None, "anchor_part": None, "sigma": sigma, "output_stride": i_stride}}, i_scale, i_max_stride, max_hw[0], max_hw[1], crop_hw=[crop, crop])
+    icfg = _cfg("centered_instance", {"confmaps": {"part_names": None, "anchor_part": None, "sigma": sigma, "output_stride": i_stride}}, i_scale, i_max_stride, max_hw[0], max_hw[1], crop_hw=[ch, cw])
     p = TopDownPredictor(
         centroid_config=ccfg, confmap_config=icfg, centroid_model=IdealCentroid(anchor, sigma, c_stride),
-        confmap_model=IdealCentered(n_nodes, sigma, i_stride, crop_hw=(crop, crop)), centroid_backbone_type="unet", centered_instance_backbone_type="unet",
+        confmap_model=IdealCentered(n_nodes, sigma, i_stride, crop_hw=(ch, cw)), centroid_backbone_type="unet", centered_instance_backbone_type="unet",
         skeletons=[skeleton], peak_threshold=peak_threshold, integral_refinement=refinement, integral_patch_size=5,
         batch_size=batch, max_instances=max_instances, preprocess_config=None, anchor_ind=anchor,
     )
@@ -243,9 +244,10 @@ def topdown_gt_predictor(n_nodes, anchor, i_scale, i_max_stride, i_stride, sigma
     """TopDownPredictor with only the centred-instance model: centroids are taken from the labelled instances."""
     from sleap_nn.inference.predictors import TopDownPredictor
 
-    icfg = _cfg("centered_instance", {"confmaps": {"part_names": None, "anchor_part": None, "sigma": sigma, "output_stride": i_stride}}, i_scale, i_max_stride, max_hw[0], max_hw[1], crop_hw=[crop, crop])
+    ch, cw = (crop, crop) if isinstance(crop, int) else (int(crop[0]), int(crop[1]))
+    icfg = _cfg("centered_instance", {"confmaps": {"part_names": None, "anchor_part": None, "sigma": sigma, "output_stride": i_stride}}, i_scale, i_max_stride, max_hw[0], max_hw[1], crop_hw=[ch, cw])
     p = TopDownPredictor(
-        centroid_config=None, confmap_config=icfg, centroid_model=None, confmap_model=IdealCentered(n_nodes, sigma, i_stride, crop_hw=(crop, crop)),
+        centroid_config=None, confmap_config=icfg, centroid_model=None, confmap_model=IdealCentered(n_nodes, sigma, i_stride, crop_hw=(ch, cw)),
         centroid_backbone_type=None, centered_instance_backbone_type="unet", skeletons=[skeleton], peak_threshold=peak_threshold,
         integral_refinement=refinement, integral_patch_size=5, batch_size=batch, preprocess_config=None, anchor_ind=anchor,
     )
